@@ -70,6 +70,14 @@ func (l *Loader) Import(path string) (*types.Package, error) {
 	if p, ok := l.faked[path]; ok {
 		return p, nil
 	}
+	if realThirdParty[path] {
+		// a few third-party packages whose constants the repo's own constants are defined from are
+		// type-checked from the module cache, at the version required by the repo's go.mod
+		if p := l.loadThirdParty(path); p != nil {
+			l.faked[path] = p
+			return p, nil
+		}
+	}
 	name := path[strings.LastIndex(path, "/")+1:]
 	if strings.HasPrefix(name, "v") && len(name) <= 3 {
 		parts := strings.Split(path, "/")
@@ -81,6 +89,82 @@ func (l *Loader) Import(path string) (*types.Package, error) {
 	p.MarkComplete()
 	l.faked[path] = p
 	return p, nil
+}
+
+// realThirdParty: third-party packages loaded from source instead of being faked.
+var realThirdParty = map[string]bool{"golang.org/x/net/ipv4": true, "golang.org/x/net/ipv6": true}
+
+func modCache() string {
+	if d := os.Getenv("GOMODCACHE"); d != "" {
+		return d
+	}
+	if d := os.Getenv("GOPATH"); d != "" {
+		return filepath.Join(strings.Split(d, string(os.PathListSeparator))[0], "pkg", "mod")
+	}
+	home, _ := os.UserHomeDir()
+	return filepath.Join(home, "go", "pkg", "mod")
+}
+
+// loadThirdParty finds path's module + version in the repo's go.mod, parses the package from the
+// module cache and type-checks it (its own third-party imports are faked, errors tolerated).
+// Returns nil when anything is missing (the package is then faked as before).
+func (l *Loader) loadThirdParty(path string) *types.Package {
+	gomod, err := os.ReadFile(filepath.Join(l.Root, "go.mod"))
+	if err != nil {
+		return nil
+	}
+	bestMod, bestVer := "", ""
+	for _, line := range strings.Split(string(gomod), "\n") {
+		f := strings.Fields(strings.TrimPrefix(strings.TrimSpace(line), "require "))
+		if len(f) >= 2 && strings.HasPrefix(f[1], "v") && (path == f[0] || strings.HasPrefix(path, f[0]+"/")) && len(f[0]) > len(bestMod) {
+			bestMod, bestVer = f[0], f[1]
+		}
+	}
+	if bestMod == "" {
+		return nil
+	}
+	esc := func(s string) string {
+		var b strings.Builder
+		for _, r := range s {
+			if r >= 'A' && r <= 'Z' {
+				b.WriteByte('!')
+				r += 'a' - 'A'
+			}
+			b.WriteRune(r)
+		}
+		return b.String()
+	}
+	dir := filepath.Join(modCache(), esc(bestMod)+"@"+bestVer, strings.TrimPrefix(strings.TrimPrefix(path, bestMod), "/"))
+	ents, err := os.ReadDir(dir)
+	if err != nil {
+		return nil
+	}
+	ctx := build.Default
+	ctx.GOOS, ctx.GOARCH, ctx.CgoEnabled = "linux", "amd64", true
+	var files []*ast.File
+	for _, e := range ents {
+		n := e.Name()
+		if e.IsDir() || !strings.HasSuffix(n, ".go") || strings.HasSuffix(n, "_test.go") {
+			continue
+		}
+		if ok, err := ctx.MatchFile(dir, n); err != nil || !ok {
+			continue
+		}
+		f, err := parser.ParseFile(l.Fset, filepath.Join(dir, n), nil, 0)
+		if err != nil {
+			return nil
+		}
+		files = append(files, f)
+	}
+	if len(files) == 0 {
+		return nil
+	}
+	saved := realThirdParty
+	realThirdParty = map[string]bool{} // one level only
+	defer func() { realThirdParty = saved }()
+	conf := types.Config{Importer: l, Error: func(error) {}, FakeImportC: true}
+	tp, _ := conf.Check(path, l.Fset, files, nil)
+	return tp
 }
 
 // Load parses and type-checks the package in directory rel (relative to the repo root).
@@ -95,6 +179,15 @@ func (l *Loader) Load(rel string) (*Pkg, error) {
 	l.inProg[path] = true
 	defer delete(l.inProg, path)
 	dir := filepath.Join(l.Root, rel)
+	if strings.HasPrefix(rel, "@") {
+		// "@<module path>": root package of a dependency, read from the module cache at the
+		// version the repo's go.mod requires (see modcache.go)
+		var err error
+		if dir, err = l.modCacheDir(rel[1:]); err != nil {
+			return nil, err
+		}
+		path = rel[1:]
+	}
 	ents, err := os.ReadDir(dir)
 	if err != nil {
 		return nil, err
